@@ -671,10 +671,56 @@ def py_str(x=""):
     return str(x)
 
 
+_TYPEMAP = {}
+
+
 def py_isinstance(x, t):
+    from . import frames
+
+    ts = t if isinstance(t, tuple) else (t,)
+    real_ts = []
+    for ty in ts:
+        ty = _TYPEMAP.get(ty, ty)
+        if ty == "DataFrame":
+            if isinstance(x, frames.Frame):
+                return True
+            continue
+        if isinstance(ty, type):
+            real_ts.append(ty)
+        elif hasattr(ty, "clsnode"):  # elexmodel class reference
+            from .values import Obj
+            from . import source
+
+            if isinstance(x, Obj) and x.clsnode is not None:
+                if any(c is ty.clsnode for _, c in source.mro(x.mod, x.clsnode)):
+                    return True
+            continue
+        else:
+            raise Undecided(f"isinstance against {ty!r}")
     if isinstance(x, V):
-        raise Undecided("isinstance on a symbolic value")
-    return isinstance(x, t)
+        if x.is_scalar:
+            srt = x.t.sort()
+            for ty in real_ts:
+                if ty is float and srt == z3.RealSort():
+                    return True
+                if ty is int and srt == z3.IntSort():
+                    return True
+                if ty is bool and srt == z3.BoolSort():
+                    return True
+                if ty is str and srt == z3.StringSort():
+                    return True
+            return False
+        return False
+    return isinstance(x, tuple(real_ts)) if real_ts else False
+
+
+def py_next(it, *default):
+    it = list(it) if not isinstance(it, list) else it
+    if it:
+        return it[0]
+    if default:
+        return default[0]
+    raise SymRaise(ExcVal("StopIteration", ()))
 
 
 def py_set(x=()):
@@ -725,6 +771,7 @@ def builtins_table():
         "list": py_list,
         "tuple": lambda x=(): tuple(py_list(x)),
         "dict": dict,
+        "bool": bool,
         "enumerate": py_enumerate,
         "sorted": py_sorted,
         "sum": py_sum,
@@ -736,10 +783,14 @@ def builtins_table():
         "filter": lambda f, xs: [x for x in xs if f(x)],
         "map": lambda f, xs: [f(x) for x in xs],
         "print": lambda *a, **k: None,
+        "next": py_next,
+        "reversed": lambda x: list(reversed(x)),
+        "hasattr": lambda o, n: hasattr(o, n),
         "True": True,
         "False": False,
         "None": None,
     }
+    _TYPEMAP.update({py_list: list, py_int: int, py_float: float, py_str: str, py_set: set})
     for e, bases in [
         ("Exception", ()),
         ("ValueError", ()),
